@@ -47,6 +47,8 @@ type h2Resp struct {
 	ResetAt  int           `json:"reset_after_bytes,omitempty"` // fault: close abruptly after n response bytes (-1: before any)
 	CloseAft bool          `json:"close_after,omitempty"`
 	Early    int           `json:"informational_responses_first,omitempty"` // number of 103 Early Hints sent before the final response
+	// BodyPause: the upstream sends its head at once and then the body in len(Chunks) pieces, pausing this long before each
+	BodyPause time.Duration `json:"pause_before_each_body_piece,omitempty"`
 }
 
 type h2Req struct {
@@ -254,7 +256,33 @@ func (e *h2Env) serveUpstream(key string, rawConn, c net.Conn) {
 			<-e.stop
 			return
 		}
-		if err := h2WriteChunks(c, raw, rs.Chunks); err != nil {
+		if rs.BodyPause > 0 {
+			head := bytes.Index(raw, []byte("\r\n\r\n")) + 4
+			if _, err := c.Write(raw[:head]); err != nil {
+				return
+			}
+			rest := raw[head:]
+			pieces := len(rs.Chunks)
+			if pieces == 0 {
+				pieces = 1
+			}
+			for i := 0; i < pieces; i++ {
+				e.d.Hint(time.Now().Add(rs.BodyPause))
+				select {
+				case <-time.After(rs.BodyPause):
+				case <-e.stop:
+					return
+				}
+				n := len(rest) / (pieces - i)
+				if i == pieces-1 {
+					n = len(rest)
+				}
+				if _, err := c.Write(rest[:n]); err != nil {
+					return
+				}
+				rest = rest[n:]
+			}
+		} else if err := h2WriteChunks(c, raw, rs.Chunks); err != nil {
 			return
 		}
 		if rs.CloseAft {
